@@ -52,14 +52,9 @@ Theorem c12_isolation_ulimit_refuted :
 Proof. exact isolation_ulimit_refuted. Qed.
 Print Assumptions c12_isolation_ulimit_refuted.
 
-Theorem c12_exit_contained_outside_known : forall c body w,
-  c <> CPipeLast -> snd (run_mut (MSub c body) w) = Go.
-Proof. exact exit_contained_outside_known. Qed.
-Print Assumptions c12_exit_contained_outside_known.
-
-Theorem c12_exit_contained_refuted : exists c body w, snd (run_mut (MSub c body) w) = Exited.
-Proof. exact exit_contained_refuted. Qed.
-Print Assumptions c12_exit_contained_refuted.
+Theorem c12_exit_contained : forall c body w, snd (run_mut (MSub c body) w) = Go.
+Proof. exact exit_contained. Qed.
+Print Assumptions c12_exit_contained.
 
 Theorem c12_shared_field_leaks :
   exists f v, In f known_shared /\
